@@ -29,8 +29,8 @@ def mut(mid, prop, path, old, new, note, count=1):
 
 # ---------------------------------------------------------------- C01
 mut("c01-end-substring", "C01", "esutil/recfile/records.cpp",
-    'if (0==strncmp(endbuff,"\\nEND\\n",5)) {', 'if (0==strncmp(endbuff+1,"END\\n",4)) {',
-    "header terminator matched as 'END\\n' at the end of any line (a value or key line ending in END cuts the header)")
+    'if (0==strncmp(endbuff,"\\nEND\\n",5)) {', 'if (0==strncmp(endbuff+2,"END",3)) {',
+    "header terminator matched as the substring END anywhere (the original defect)")
 mut("c01-count-nrows-offset", "C01", "esutil/recfile/Util.py",
     "datasize = fobj.tell() - self.offset", "datasize = fobj.tell()",
     "row count derived from the whole file size although a data offset was given")
